@@ -323,3 +323,40 @@ func SV_C09_tombstone_value() {
 		sv.Cover(len(got) == 0, "reserved-value-is-dropped")
 	}
 }
+
+// SV_C09_rotation: which earlier versions stay readable under every small
+// rotation setting (the documented meaning of recent / every / cycles).
+//
+// sv:bounds rotation settings symbolic: recent in 0..4, every in 0..4, cycles in 0..3; N = 9 block commits, each writing the key "k" with the version's number; after every commit all earlier versions are read back
+// sv:outside longer histories and larger settings (the shipped default 10/100/10 needs > 110 commits); IAVL's own pruning (stub: versioned ordered map with DeleteVersion)
+// sv:goal after the commit of version V a version v < V returns its value iff it is within the recent window (v >= V - 1 - recent) or is an epoch (every > 0, v a multiple of every) that is kept: all of them when cycles = 0, else those with v + cycles*every > V - 1 - recent; every other version is gone; the last version always reads
+func SV_C09_rotation() {
+	recent, every, cycles := sv.Int64("recent"), sv.Int64("every"), sv.Int64("cycles")
+	sv.Assume(recent >= 0 && recent <= 4 && every >= 0 && every <= 4 && cycles >= 0 && cycles <= 3)
+	cs := NewChainState("c09rot", db.NewMemDB())
+	cs.ChainStateRotation.recent, cs.ChainStateRotation.every, cs.ChainStateRotation.cycles = recent, every, cycles
+	st := NewState(cs)
+	key := StoreKey("k")
+	const N = 9
+	for V := int64(1); V <= N; V++ {
+		if err := st.Set(key, []byte{byte(V)}); err != nil {
+			sv.Unreachable("set")
+		}
+		_, ver := st.Commit()
+		sv.Assert(ver == V, "commit-version-increments")
+		released := V - 1 - recent // versions up to here have left the recent window
+		for v := int64(1); v <= V; v++ {
+			kept := v > released
+			if !kept && every > 0 && v%every == 0 {
+				kept = cycles == 0 || v+cycles*every > released
+			}
+			got := st.GetVersioned(v, key)
+			if kept {
+				sv.Assert(len(got) == 1 && got[0] == byte(v), "kept-version-returns-its-value")
+			} else {
+				sv.Assert(len(got) == 0, "rotated-version-is-gone")
+			}
+		}
+	}
+	sv.Cover(true, "ran")
+}
